@@ -132,7 +132,7 @@ def _job(job) -> List[Dict[str, Any]]:
 def _heads(sym, out: set, depth=0, bound=frozenset()):
     """Team positions a term refers to (first index of player atoms and of team-size lengths); variables bound by an
     enclosing fold over all teams are not positions of their own."""
-    if sym is None or not isinstance(sym, tuple) or depth > 80:
+    if sym is None or not isinstance(sym, tuple) or not sym or depth > 80:
         return
 
     def add(h):
@@ -156,7 +156,7 @@ def _heads(sym, out: set, depth=0, bound=frozenset()):
         _heads(sym[3], out, depth + 1, b2)
         _heads(sym[4], out, depth + 1, bound)
         return
-    if sym[0] in ("const", "param", "rd", "elem", "idx", "len"):
+    if sym[0] in ("const", "param", "rd", "elem", "idx", "len", "opq"):
         return
     for a in sym[1:]:
         if isinstance(a, tuple):
